@@ -375,6 +375,7 @@ def step (st : Store) (line : String) : Store × String :=
     | none => (st, "bad-ref")
     | some pj => ({ st with pjs := st.pjs.insert pn { pj with msg := pj.msg.map (fun _ => 0xff) } }, "ok")
   | ["reset"] => ({}, "ok")
+  | ["mode", _] => (st, "ok")   -- harness-side execution mode (destination reuse); the model has no destinations
   | ["chunks", fin, lens, h] =>
     match unhex h with
     | some b =>
